@@ -658,6 +658,8 @@ def life_case(run, i, c):
             op["mode"] = ["", "block", "authorizer", "text"][(i + len(script)) % 4]
         elif h["op"] == "query":
             op["q"] = h["arg"]
+        elif h["op"] in ("save", "load"):
+            op["slot"] = h["arg"].get("x", 0)
         script.append(op)
     return {"id": "l%d" % i, "emb": emb_of(run, i), "toks": [dict(t, via=["mem", "bytes"][i % 2]) for t in c["toks"]], "script": script}
 
@@ -792,12 +794,14 @@ def c13(run):
 @check("C18")
 def c18(run):
     run.rule = ("Lifecycle.tla models SerializePolicies/LoadPolicies; TLC enumerates [new on token t; add content; (authorize|query|nothing); "
-                "save; new on ANY token t'; load; authorize; queries; authorize original] over 3x3 tokens x 24 contents, checks "
-                "SnapshotEquiv and SaveRefusedIffEvaluated, and exports the histories; the driver replays them (tokens in memory or "
+                "save; new on ANY token t'; load; authorize; queries; authorize original] over 3x3 tokens x 54 contents, checks "
+                "SnapshotEquiv and SaveRefusedIffEvaluated, and the chain [.. save; new; load; save again; new; load; authorize and query all "
+                "three] (ResnapEquiv), and exports the histories; the driver replays them (tokens in memory or "
                 "through bytes; constants embedded in every term type so the snapshot carries all term kinds and fresh symbols).")
     run.assumptions = AUTHZ_ASSUME
     t = "thorough" if run.tier == "thorough" else "quick"
-    insts = life_check(run, [("Lifecycle_snapshot_" + t, "L1 SnapshotEquiv / SaveRefusedIffEvaluated + export", {})])
+    insts = life_check(run, [("Lifecycle_snapshot_" + t, "L1 SnapshotEquiv / SaveRefusedIffEvaluated + export", {}),
+                             ("Lifecycle_resnapshot", "L1 ResnapEquiv (snapshot of a restored authorizer restored again: all three agree) + export", {})])
     # malformed snapshots: seeded byte corruption of real snapshots and hand-encoded adversarial AuthorizerPolicies messages
     driver = core.build_driver(run.work)
     contents = [h["arg"] for c in insts for h in c["hist"] if h["op"] == "add"]
